@@ -24,7 +24,7 @@ TraceInit == DAbsInit /\ l = 1 /\ run = 0 /\ known8 = {}
 Reset(e) ==
   /\ now' = 0
   /\ known' = [p \in P |-> FALSE] /\ lastSign' = [p \in P |-> 0] /\ lease' = [p \in P |-> DefaultLease]
-  /\ ann' = [x \in E |-> FALSE] /\ attic' = [x \in E |-> FALSE] /\ stale' = [x \in E |-> FALSE]
+  /\ ann' = [x \in E |-> FALSE] /\ attic' = [x \in E |-> FALSE] /\ fuzzy' = [x \in E |-> FALSE] /\ stale' = [x \in E |-> FALSE]
   /\ totW' = 0 /\ totR' = 0 /\ viol' = {}
   /\ run' = e.run /\ known8' = {}
 
